@@ -184,7 +184,8 @@ def _nkw(k):
 # ------------------------------------------------------------------------------------------------ statements
 class FnInfo:
     """Per-function facts the temporary rule needs: how often each name is stored / loaded in the whole function (nested scopes included)."""
-    def __init__(self, fn):
+    def __init__(self, fn, pure=frozenset()):
+        self.pure = pure
         self.stores, self.loads = {}, {}
         self.special = set()
         self.nested = set()     # names that occur in a nested scope (closures may read them at any time)
@@ -306,9 +307,12 @@ def nlist(stmts, info, loop_tail=False):
     while i < len(stmts):
         st = stmts[i]
         # temporary read once in the next statement
-        # (or: read once by the return / raise that follows - the value is dead afterwards however often the name is used elsewhere)
+        # (or: read once by the return / raise that follows - the value is dead afterwards however often the name is used elsewhere;
+        #  or: read once by the very next statement, which assigns the name anew - `x = a; x = f(x)` is `x = f(a)`)
         if isinstance(st, ast.Assign) and len(st.targets) == 1 and isinstance(st.targets[0], ast.Name) and i + 1 < len(stmts) and info is not None \
-                and (info.single_use(st.targets[0].id) or (isinstance(stmts[i + 1], (ast.Return, ast.Raise)) and info.plain_local(st.targets[0].id))):
+                and (info.single_use(st.targets[0].id) or (isinstance(stmts[i + 1], (ast.Return, ast.Raise)) and info.plain_local(st.targets[0].id))
+                     or (isinstance(stmts[i + 1], ast.Assign) and len(stmts[i + 1].targets) == 1 and isinstance(stmts[i + 1].targets[0], ast.Name)
+                         and stmts[i + 1].targets[0].id == st.targets[0].id and info.plain_local(st.targets[0].id))):
             nm = st.targets[0].id
             nxt = stmts[i + 1]
             hdr = _header_only(nxt)
@@ -345,6 +349,166 @@ def nlist(stmts, info, loop_tail=False):
     return out
 
 
+PURE_BUILTINS = {"id", "len", "type", "isinstance", "issubclass", "ord", "chr", "str", "int", "bool", "float", "tuple", "frozenset", "min", "max", "abs", "repr", "getattr",
+                 "hasattr", "any", "all", "sum", "format", "hash", "sorted", "list", "set", "dict", "enumerate", "zip", "range", "reversed", "iter", "next"}
+PURE_VALUE_BUILTINS = PURE_BUILTINS - {"sorted", "list", "set", "dict", "enumerate", "zip", "range", "reversed", "iter", "next"}     # (no fresh mutable object, no output)
+PURE_METHODS = {"get", "keys", "values", "items", "index", "count", "startswith", "endswith", "upper", "lower", "strip", "lstrip", "rstrip", "split", "join", "isdigit", "isascii",
+                "replace", "format", "encode", "decode", "isdisjoint", "issubset", "issuperset", "bit_length", "isalpha", "isalnum", "isidentifier"}
+PURE_DOTTED = {"os.path.basename", "os.path.splitext", "os.path.dirname", "os.path.join", "itertools.chain"}
+
+
+def pure_function_names(tree):
+    """Names of functions / methods ALL of whose definitions in the module are effect-free: they assign only to their own local names, declare no global / nonlocal,
+    do not yield, and call only effect-free builtins, effect-free methods of built-in types and each other (greatest fixed point)."""
+    defs = {}
+    for n in ast.walk(tree):
+        if isinstance(n, (ast.FunctionDef, ast.AsyncFunctionDef)):
+            defs.setdefault(n.name, []).append(n)
+    cand = set(defs)
+
+    MUTATORS = {"append", "extend", "add", "update", "insert", "sort", "pop", "remove", "discard", "clear", "setdefault", "reverse"}
+
+    def fresh_locals(fn):
+        """Local names that only ever hold a container built in this call (mutating those is no effect anyone else can see)."""
+        vals = {}
+        for n in ast.walk(fn):
+            if isinstance(n, ast.Assign):
+                for t in n.targets:
+                    if isinstance(t, ast.Name):
+                        vals.setdefault(t.id, []).append(n.value)
+                    else:
+                        for x in ast.walk(t):
+                            if isinstance(x, ast.Name):
+                                vals.setdefault(x.id, []).append(None)
+            elif isinstance(n, (ast.For, ast.comprehension)):
+                for x in ast.walk(n.target):
+                    if isinstance(x, ast.Name):
+                        vals.setdefault(x.id, []).append(None)
+            elif isinstance(n, ast.arg):
+                vals.setdefault(n.arg, []).append(None)
+        def fresh(v):
+            return isinstance(v, (ast.List, ast.Set, ast.Dict, ast.ListComp, ast.SetComp, ast.DictComp)) or \
+                (isinstance(v, ast.Call) and isinstance(v.func, ast.Name) and v.func.id in ("list", "set", "dict", "sorted"))
+        return {k for k, vs in vals.items() if vs and all(v is not None and fresh(v) for v in vs)}
+
+    def ok(fn, cand):
+        fl = fresh_locals(fn)
+        for n in ast.walk(fn):
+            if isinstance(n, ast.Call) and isinstance(n.func, ast.Attribute) and n.func.attr in MUTATORS and isinstance(n.func.value, ast.Name) and n.func.value.id in fl:
+                n._fresh_mut = True
+            if isinstance(n, ast.AugAssign) and isinstance(n.target, ast.Name):
+                continue
+        for n in ast.walk(fn):
+            if isinstance(n, (ast.Global, ast.Nonlocal, ast.Yield, ast.YieldFrom, ast.Await, ast.With, ast.AsyncWith, ast.Delete, ast.Import, ast.ImportFrom)):
+                return False
+            if isinstance(n, (ast.Attribute, ast.Subscript)) and not isinstance(n.ctx, ast.Load):
+                return False
+            if isinstance(n, ast.Call):
+                f = n.func
+                if isinstance(f, ast.Name):
+                    if f.id not in PURE_BUILTINS and f.id not in cand:
+                        return False
+                elif isinstance(f, ast.Attribute):
+                    if ast.unparse(f) in PURE_DOTTED or getattr(n, "_fresh_mut", False):
+                        continue
+                    if f.attr not in PURE_METHODS and f.attr not in cand:
+                        return False
+                else:
+                    return False
+        return True
+    while True:
+        bad = {name for name in cand if not all(ok(fn, cand) for fn in defs[name])}
+        if not bad:
+            return frozenset(cand)
+        cand -= bad
+
+
+def _is_pure_value(e, pure):
+    """Evaluating e has no effect, builds no fresh mutable object, and gives the same answer as long as nothing it reads is changed."""
+    if isinstance(e, (ast.Name, ast.Constant)):
+        return True
+    if isinstance(e, ast.Attribute):
+        return _is_pure_value(e.value, pure)
+    if isinstance(e, ast.Subscript):
+        return _is_pure_value(e.value, pure) and (isinstance(e.slice, ast.Slice) is False) and _is_pure_value(e.slice, pure)
+    if isinstance(e, ast.UnaryOp):
+        return _is_pure_value(e.operand, pure)
+    if isinstance(e, ast.BinOp):
+        return _is_pure_value(e.left, pure) and _is_pure_value(e.right, pure)
+    if isinstance(e, ast.BoolOp):
+        return all(_is_pure_value(v, pure) for v in e.values)
+    if isinstance(e, ast.Compare):
+        return _is_pure_value(e.left, pure) and all(_is_pure_value(c, pure) for c in e.comparators)
+    if isinstance(e, ast.IfExp):
+        return all(_is_pure_value(x, pure) for x in (e.test, e.body, e.orelse))
+    if isinstance(e, ast.Tuple):
+        return all(_is_pure_value(x, pure) for x in e.elts)
+    if isinstance(e, ast.Call):
+        if e.keywords and any(k.arg is None for k in e.keywords):
+            return False
+        args = list(e.args) + [k.value for k in e.keywords]
+        if not all(_is_pure_value(a, pure) for a in args):
+            return False
+        f = e.func
+        if isinstance(f, ast.Name):
+            return f.id in PURE_VALUE_BUILTINS
+        if isinstance(f, ast.Attribute):
+            if ast.unparse(f) in PURE_DOTTED - {"itertools.chain"}:
+                return True
+            return (f.attr in pure or f.attr in PURE_METHODS - {"keys", "values", "items", "split"}) and _is_pure_value(f.value, pure)
+    return False
+
+
+def _read_paths(e):
+    """Texts of everything e reads through (sub-chains and call receivers), and the root names."""
+    paths, roots = set(), set()
+    for n in ast.walk(e):
+        if isinstance(n, ast.Name):
+            roots.add(n.id)
+            paths.add(n.id)
+        elif isinstance(n, (ast.Attribute, ast.Subscript)):
+            paths.add(ast.unparse(n))
+    return paths, roots
+
+
+def _value_stable(e, rest, pure):
+    """Nothing in `rest` visibly changes what e reads: no root rebound, no store into / deletion from a path, no method that may mutate called on a path object, no path
+    object (other than the value itself) handed to a callee that may mutate it. (Changes through an alias that is not spelled like a path are not seen: see DESIGN 9.9.)"""
+    paths, roots = _read_paths(e)
+    whole = ast.unparse(e)
+    builtin_roots = {r for r in roots if r in PURE_BUILTINS or r in ("os", "itertools", "self", "cls")}
+    for s_ in rest:
+        for n in ast.walk(s_):
+            if isinstance(n, ast.Name) and n.id in roots and not isinstance(n.ctx, ast.Load):
+                return False
+            if isinstance(n, (ast.Attribute, ast.Subscript)) and not isinstance(n.ctx, ast.Load) and (ast.unparse(n) in paths or ast.unparse(n.value) in paths - builtin_roots):
+                return False
+            if isinstance(n, ast.AugAssign) and ast.unparse(n.target) in paths:
+                return False
+            if isinstance(n, ast.Call):
+                callee_pure = (isinstance(n.func, ast.Name) and (n.func.id in PURE_BUILTINS or n.func.id in pure)) or \
+                              (isinstance(n.func, ast.Attribute) and (n.func.attr in pure or n.func.attr in PURE_METHODS or ast.unparse(n.func) in PURE_DOTTED))
+                if callee_pure:
+                    continue
+                if isinstance(n.func, ast.Attribute):
+                    recv = ast.unparse(n.func.value)
+                    if recv in paths - builtin_roots and recv != whole:
+                        return False
+                for a in list(n.args) + [k.value for k in n.keywords]:
+                    if isinstance(a, ast.Starred):
+                        a = a.value
+                    t = ast.unparse(a)
+                    if t in paths - builtin_roots and t != whole and not isinstance(a, ast.Constant):
+                        # a plain local name handed on is only a problem if the value reads THROUGH it
+                        if any(p.startswith(t + ".") or p.startswith(t + "[") for p in paths):
+                            return False
+            if isinstance(n, ast.ExceptHandler) and n.name in roots:
+                return False
+            if isinstance(n, (ast.Global, ast.Nonlocal)):
+                return False
+    return True
+
+
 def _is_chain(e):
     """name / attribute / constant-subscript chain: evaluating it has no effect and yields the same object until a prefix of it is rebound"""
     if isinstance(e, ast.Name):
@@ -375,12 +539,15 @@ def _chain_temps(stmts, info):
     i = 0
     while i < len(stmts):
         st = stmts[i]
-        if isinstance(st, ast.Assign) and len(st.targets) == 1 and isinstance(st.targets[0], ast.Name) and not isinstance(st.value, ast.Name) and _is_chain(st.value):
+        pure = getattr(info, "pure", frozenset())
+        if isinstance(st, ast.Assign) and len(st.targets) == 1 and isinstance(st.targets[0], ast.Name) and not isinstance(st.value, (ast.Name, ast.Constant)) \
+                and (_is_chain(st.value) or _is_pure_value(st.value, pure)):
             t = st.targets[0].id
             rest = stmts[i + 1:]
             if info.stores.get(t) == 1 and t not in info.special and t not in info.deferred and rest:
                 loads = sum(1 for s_ in rest for n in ast.walk(s_) if isinstance(n, ast.Name) and n.id == t and isinstance(n.ctx, ast.Load))
-                if loads == info.loads.get(t, 0) and loads >= 1 and _chain_stable(st.value, rest, t):
+                stable = _chain_stable(st.value, rest, t) if _is_chain(st.value) else _value_stable(st.value, rest, pure)
+                if loads == info.loads.get(t, 0) and loads >= 1 and stable:
                     sub = _SubstAll(t, st.value)
                     stmts = stmts[:i] + [sub.visit(copy.deepcopy(s_)) for s_ in rest]
                     continue
@@ -424,40 +591,102 @@ def _chain_stable(e, rest, t):
     return True
 
 
+def _loop_core(f, info):
+    """The generators of a (possibly nested) for loop whose body is, after normalisation, one conditional / one inner loop / one leaf: ([comprehension..], leaf statements)."""
+    gens, node = [], f
+    while True:
+        if node.orelse:
+            return None
+        body = nlist(node.body, info, loop_tail=True)
+        g = ast.comprehension(node.target, nexpr(node.iter), [], 0)
+        gens.append(g)
+        if len(body) == 1 and isinstance(body[0], ast.If) and not body[0].orelse:
+            g.ifs.append(body[0].test)
+            body = body[0].body
+        if len(body) == 1 and isinstance(body[0], ast.For):
+            node = body[0]
+            continue
+        return gens, body
+
+
+def _const(st, v):
+    return isinstance(st, ast.Return) and isinstance(st.value, ast.Constant) and st.value.value is v
+
+
 def _accumulate_loops(stmts, info):
-    """`v = [..]` ; `for T in I: v.append(E)` (or `.extend(E)`, or under one `if`)  ==  `v = [..] + [E for T in I]`
-    when neither v nor T is used by I / E resp. outside the loop."""
+    """Loops that only collect or only search are the comprehension / any() they compute:
+       v = [..] ; for..: v.append(E) | v.extend(E)      ==  v = [..] + [E for ..]            (likewise sets with .add)
+       for..: if c: return True ; return False           ==  return any(c for ..)             (and the negated form)
+       for..: if c: raise X                              ==  if any(c for ..): raise X        (X does not mention the loop variables)
+       for..: if c: flag = K [; break]                   ==  if any(c for ..): flag = K       (c effect-free when there is no break)
+    The loop variables must not be read outside the loop, the collected name not inside the expressions."""
     stmts = list(stmts)
+    pure = getattr(info, "pure", frozenset())
     i = 0
-    while i + 1 < len(stmts):
-        a, f = stmts[i], stmts[i + 1]
+    while i < len(stmts):
+        f = stmts[i]
+        if not isinstance(f, ast.For):
+            i += 1
+            continue
+        core = _loop_core(f, info)
+        if core is None:
+            i += 1
+            continue
+        gens, leaf = core
+        tnames = {n.id for g in gens for n in ast.walk(g.target) if isinstance(n, ast.Name)}
+        inside = sum(1 for n in ast.walk(f) if isinstance(n, ast.Name) and n.id in tnames and isinstance(n.ctx, ast.Load))
+        total = sum(info.loads.get(x, 0) for x in tnames)
+        if inside != total or (tnames & info.special) or (tnames & info.deferred) or not all(isinstance(n, ast.Name) for g in gens for n in ast.walk(g.target) if isinstance(n, (ast.Name, ast.Attribute, ast.Subscript))):
+            i += 1
+            continue
+        mentions = lambda x, names: any(isinstance(n, ast.Name) and n.id in names for n in ast.walk(x))
+        prev = stmts[i - 1] if i > 0 else None
+        nxt = stmts[i + 1] if i + 1 < len(stmts) else None
+
+        def gen_any():
+            gs = copy.deepcopy(gens)
+            cond = gs[-1].ifs.pop() if gs[-1].ifs else ast.Constant(True)
+            return ast.Call(ast.Name("any", ast.Load()), [ast.GeneratorExp(cond, gs)], [])
         new = None
-        if isinstance(a, ast.Assign) and len(a.targets) == 1 and isinstance(a.targets[0], ast.Name) and isinstance(a.value, ast.List) \
-                and isinstance(f, ast.For) and not f.orelse and len(f.body) == 1:
-            v = a.targets[0].id
-            tnames = {n.id for n in ast.walk(f.target) if isinstance(n, ast.Name)}
-            inside = sum(1 for n in ast.walk(f) if isinstance(n, ast.Name) and n.id in tnames and isinstance(n.ctx, ast.Load))
-            total = sum(info.loads.get(x, 0) for x in tnames)
-            tstores = sum(info.stores.get(x, 0) for x in tnames)
-            body = f.body[0]
-            cond = None
-            if isinstance(body, ast.If) and not body.orelse and len(body.body) == 1:
-                cond, body = body.test, body.body[0]
-            call = body.value if isinstance(body, ast.Expr) else None
-            uses_v = lambda x: any(isinstance(n, ast.Name) and n.id == v for n in ast.walk(x))
-            if inside == total and tstores == len(tnames) and not (tnames & info.special) and isinstance(call, ast.Call) and isinstance(call.func, ast.Attribute) \
-                    and isinstance(call.func.value, ast.Name) and call.func.value.id == v and call.func.attr in ("append", "extend") and len(call.args) == 1 and not call.keywords \
-                    and not uses_v(call.args[0]) and not uses_v(f.iter) and not (cond is not None and uses_v(cond)) and v not in tnames:
-                gens = [ast.comprehension(f.target, f.iter, [cond] if cond is not None else [], 0)]
-                if call.func.attr == "append":
-                    comp = ast.ListComp(call.args[0], gens)
-                else:
-                    gens.append(ast.comprehension(ast.Name("_x", ast.Store()), call.args[0], [], 0))
-                    comp = ast.ListComp(ast.Name("_x", ast.Load()), gens)
-                val = comp if not a.value.elts else ast.BinOp(a.value, ast.Add(), comp)
-                new = ast.Assign([ast.Name(v, ast.Store())], val)
+        span = (i, i + 1)
+        if len(leaf) == 1:
+            lf = leaf[0]
+            call = lf.value if isinstance(lf, ast.Expr) and isinstance(lf.value, ast.Call) else None
+            # collectors
+            if call is not None and isinstance(call.func, ast.Attribute) and isinstance(call.func.value, ast.Name) and call.func.attr in ("append", "extend", "add") \
+                    and len(call.args) == 1 and not call.keywords and isinstance(prev, ast.Assign) and len(prev.targets) == 1 and isinstance(prev.targets[0], ast.Name) \
+                    and prev.targets[0].id == call.func.value.id:
+                v = prev.targets[0].id
+                is_list = isinstance(prev.value, ast.List)
+                is_set = isinstance(prev.value, ast.Call) and isinstance(prev.value.func, ast.Name) and prev.value.func.id == "set" and not prev.value.args
+                if v not in tnames and not any(mentions(x, {v}) for g in gens for x in [g.iter] + g.ifs) and not mentions(call.args[0], {v}) \
+                        and ((is_list and call.func.attr in ("append", "extend")) or (is_set and call.func.attr == "add")):
+                    gs = copy.deepcopy(gens)
+                    elt = call.args[0]
+                    if call.func.attr == "extend":
+                        gs.append(ast.comprehension(ast.Name("_x", ast.Store()), call.args[0], [], 0))
+                        elt = ast.Name("_x", ast.Load())
+                    comp = ast.ListComp(elt, gs) if is_list else ast.SetComp(elt, gs)
+                    val = comp if (is_set or not prev.value.elts) else ast.BinOp(prev.value, ast.Add(), comp)
+                    new = [ast.Assign([ast.Name(v, ast.Store())], val)]
+                    span = (i - 1, i + 1)
+            # searches
+            elif _const(lf, True) and _const(nxt, False):
+                new, span = [ast.Return(gen_any())], (i, i + 2)
+            elif _const(lf, False) and _const(nxt, True):
+                new, span = [ast.Return(ast.UnaryOp(ast.Not(), gen_any()))], (i, i + 2)
+            elif isinstance(lf, ast.Raise) and not mentions(lf, tnames):
+                new = [ast.If(gen_any(), [lf], [])]
+            elif isinstance(lf, ast.Assign) and len(lf.targets) == 1 and isinstance(lf.targets[0], ast.Name) and isinstance(lf.value, ast.Constant) and lf.targets[0].id not in tnames \
+                    and not any(mentions(x, {lf.targets[0].id}) for g in gens for x in [g.iter] + g.ifs) \
+                    and all(_is_pure_value(x, pure) for g in gens for x in [g.iter] + g.ifs):
+                new = [ast.If(gen_any(), [lf], [])]
+        elif len(leaf) == 2 and isinstance(leaf[1], ast.Break) and len(gens) == 1 and isinstance(leaf[0], ast.Assign) and len(leaf[0].targets) == 1 and isinstance(leaf[0].targets[0], ast.Name) \
+                and isinstance(leaf[0].value, ast.Constant) and leaf[0].targets[0].id not in tnames and not any(mentions(x, {leaf[0].targets[0].id}) for g in gens for x in [g.iter] + g.ifs):
+            new = [ast.If(gen_any(), [leaf[0]], [])]
         if new is not None:
-            stmts[i:i + 2] = [new]
+            stmts[span[0]:span[1]] = new
+            i = span[0] + 1
             continue
         i += 1
     return stmts
@@ -547,7 +776,7 @@ def nstmt(st, info):
         return [new]
     if isinstance(st, (ast.FunctionDef, ast.AsyncFunctionDef)):
         new = copy.copy(st)
-        new.body = nlist(st.body, FnInfo(st))
+        new.body = nlist(st.body, FnInfo(st, getattr(info, "pure", frozenset())))
         return [new]
     if isinstance(st, ast.ClassDef):
         return [st]
@@ -572,18 +801,19 @@ def _merge_guard(t, A):
 
 # ------------------------------------------------------------------------------------------------ restoration
 class Restorer:
-    def __init__(self):
+    def __init__(self, pure_c=frozenset(), pure_r=frozenset()):
+        self.pure_c, self.pure_r = pure_c, pure_r
         self.restored = 0       # statements replaced by the reference's spelling
         self.kept = 0           # statements that did not match (analysed as written)
 
     def function(self, cf, rf):
         if ast.dump(cf) == ast.dump(rf):
             return False
-        ic, ir = FnInfo(cf), FnInfo(rf)
+        ic, ir = FnInfo(cf, self.pure_c), FnInfo(rf, self.pure_r)
         before = ast.dump(cf)
         if _args_key(cf.args) == _args_key(rf.args) and K(cf.decorator_list) == K(rf.decorator_list):
             try:
-                same = alpha_key(cf) == alpha_key(rf)
+                same = alpha_key(cf, self.pure_c) == alpha_key(rf, self.pure_r)
             except RecursionError:
                 same = False
             if same:                                        # equal up to N and a consistent renaming of locals: the reference's spelling, whole
@@ -724,6 +954,7 @@ def load_reference():
         _REF_CACHE["mt"] = mt
         _REF_CACHE["fns"] = _functions(_REF_CACHE["tree"])
         _REF_CACHE["dumps"] = {q: ast.dump(f) for q, f in _REF_CACHE["fns"].items()}
+        _REF_CACHE["pure"] = pure_function_names(_REF_CACHE["tree"])
     return _REF_CACHE
 
 
@@ -737,11 +968,14 @@ def restore(tree, ref=None):
     inlined = inline_new_constants(tree, ref["tree"]) + inline_new_helpers(tree, ref)
     if inlined:
         applied["<helpers put back>"] = (len(inlined), 0, True)
+    pure_c = None
     for q, cf in _functions(tree).items():
         rf = ref["fns"].get(q)
         if rf is None or ast.dump(cf) == ref["dumps"][q]:
             continue
-        r = Restorer()
+        if pure_c is None:
+            pure_c = pure_function_names(tree)
+        r = Restorer(pure_c, ref["pure"])
         changed = r.function(cf, rf)
         applied[q] = (r.restored, r.kept, changed)          # (nodes may have been rebuilt even when nothing changed: the caller re-parses)
     return applied
@@ -1237,11 +1471,12 @@ def split_webs(fn, info, counter=None):
             todo.extend(ast.iter_child_nodes(n))
 
 
-def alpha_key(fn):
+def alpha_key(fn, pure=frozenset()):
     """Dump of fn's normal form with its webs renamed apart and every local (variables, nested functions and their parameters, handler names) named after the
     position of its first occurrence: equal keys = equal up to a consistent renaming of locals (and the equivalences of N)."""
-    info = FnInfo(fn)
     f2 = copy.deepcopy(fn)
+    split_webs(f2, FnInfo(f2, pure))
+    info = FnInfo(f2, pure)
     f2.body = nlist(f2.body, info)
     if f2.body and isinstance(f2.body[0], ast.Expr) and isinstance(f2.body[0].value, ast.Constant) and isinstance(f2.body[0].value.value, str):
         f2.body = f2.body[1:] or [ast.Pass()]
